@@ -10,17 +10,17 @@ VERIF = os.path.dirname(os.path.dirname(os.path.abspath(__file__)))
 CHECKS = {
     "C03": ("exploration",
             "runtime monitoring: observer programs log markers/$? probes; offline checker compares the ordered event log with a reference evaluator",
-            "Every list program up to 6 operands over {;,&&,||}x{0,1} is executed by the real binary and judged; random longer programs with decoys/probes/other codes sampled. Held = held on the executions observed.",
+            "Every list program up to 6 operands over {;,&&,||}x{0,1} is executed by the real binary and judged; random longer programs with decoys (incl. a # in the middle of a word) / probes / other codes / failing builtins sampled, through -c and script files, and as the body of a taken if / else branch, of a for loop left by break, of a function called inside a list of its own and of a function whose output is captured. Held = held on the executions observed.",
             "trusts the helper binary's atomic O_APPEND logging and the 6-line reference evaluator taken from the statement",
             "DESIGN.md 3 C03"),
     "C02": ("exploration",
             "runtime monitoring: instrumented pipeline stages (start/end records, byte counts, FNV hashes), shell snapshot by the follow-up command; offline checker for exactly-once, per-link conservation, ordering, leftover children, status; /proc deadlock diagnosis under a watchdog",
-            "All finishing orders for n<=4 stages are forced and observed with payloads up to 1 MiB; exit codes, signals and non-reading/failing stages in every position, an earlier background job ending meanwhile and pipelines run after other commands of the same shell are sampled; every stage's wiring (one pipe per link, the shell's descriptors at the ends, nothing else open) and inherited SIGPIPE disposition are read from its start record. Held = held on the executions observed.",
+            "All finishing orders for n<=4 stages are forced and observed with payloads up to 1 MiB; exit codes, signals and non-reading/failing stages in every position, an earlier background job ending meanwhile and pipelines run after other commands of the same shell are sampled; every stage's wiring (one pipe per link, the shell's descriptors at the ends, nothing else open) and the inherited disposition of every signal that must be able to end or stop it are read from its start record; a builtin stage that writes several lines must deliver them all; the last word of the line may be a quoted &. Held = held on the executions observed.",
             "trusts the stage helpers' byte counting/hashing; a hang is a violation only with a /proc deadlock diagnosis",
             "DESIGN.md 3 C02"),
     "C04": ("exploration",
             "runtime monitoring: observer command records stdin bytes and writes marked lines to fd 1/2; follow-up observers record status, descriptor identity and the shell's fd table; oracle = reference model of open file descriptions; failing cases are shrunk before classification",
-            "Random redirection lists (<=4 of 11 operator spellings) x external/builtin x 4 pipeline positions x target states are executed and compared with a reference model of open file descriptions.",
+            "Random redirection lists (<=4 of 11 operator spellings) x external/builtin x 4 pipeline positions x target states are executed and compared with a reference model of open file descriptions; 30% of the external commands also carry arguments with a quoted or escaped operator, and after every command the directory may hold nothing but the named targets.",
             "trusts the POSIX open-file-description model in lib/c04.py; nothing demanded of a failing command's own targets",
             "DESIGN.md 3 C04"),
     "C08": ("fault_enumeration",
@@ -35,27 +35,27 @@ CHECKS = {
             "DESIGN.md 3 C01"),
     "C10": ("exploration",
             "runtime monitoring: observer argv compared with a single-pass reference substitution; non-termination decided by the step-budget hook (bounded rewrite steps) backed by a /proc spin diagnosis",
-            "Random words of adjacent references under adversarial value environments (self/mutual reference, $-text, braces, regex-special) in three quoting forms, values exported or assigned.",
+            "Random words of adjacent references under adversarial value environments (self/mutual reference, $-text, braces, regex-special) in three quoting forms, values exported, assigned, re-assigned or read; 5% of the words have a brace list of their own next to the reference.  Listed findings apply only where the later pass would really change the inserted text.",
             "names matched greedily as [A-Za-z0-9_]+; unquoted words compared modulo blank runs",
             "DESIGN.md 3 C10"),
     "C12": ("exploration",
             "runtime monitoring: observer argv in prepared directory populations compared with a reference expander (brace product, inclusive range, HOME, sorted non-hidden matches); failing lines reduced to the single failing word",
-            "Random brace terms from a grammar, ranges over boundary bounds (with escaped blanks around them), tilde forms (incl. a second ~ later in the word) and glob patterns against 6 directory populations (incl. matches two and more levels down, relative / absolute / under ~, hidden entries at every level, hidden directories written out), each next to quoted neighbours, as a command's arguments and as the word list of a script `for`, executed by the real binary.",
+            "Random brace terms from a grammar, ranges over boundary bounds (with escaped blanks around them), ranges or comma-less groups as alternatives, never-closed braces next to a group, words that only look like a range, tilde forms (12% of the lines with HOME set to / or written with a trailing slash) (incl. a second ~ later in the word) and glob patterns against 6 directory populations (incl. matches two and more levels down, relative / absolute / under ~, hidden entries at every level, hidden directories written out), each next to quoted neighbours, as a command's arguments and as the word list of a script `for`, executed by the real binary.",
             "reference expander in lib/c12.py; one expansion kind per word; words expanding to an empty word not generated",
             "DESIGN.md 3 C12"),
     "C11": ("exploration",
             "runtime monitoring: inner observer vp_out logs one record per run (exactly-once) and emits prepared stdout/stderr/status; outer observer records the resulting word; shell snapshots before/after; step-budget hook for termination",
-            "Random words with 1..3 substitutions in 5 contexts, 10 inner-command kinds (incl. a substitution of the other spelling inside, and quoted arguments containing ) ( \\ and quotes) (also run by a function, or piped into a builtin) and 18 output classes (one of 90 KB, more than a pipe buffer; 6% of the inner commands also write 100 KB to stderr) are executed and compared with prefix+output-minus-trailing-newlines+suffix; stderr pass-through, exactly-once, the inner command's own argv and shell state are checked on every run.",
+            "Random words with 1..3 substitutions in 5 contexts, 10 inner-command kinds (incl. a substitution of the other spelling inside, and quoted arguments containing ) ( \\ and quotes) (also run by a function, or piped into a builtin) and 18 output classes (one of 90 KB, more than a pipe buffer; 6% of the inner commands also write 100 KB to stderr, all of which must arrive; 4% write stderr after closing stdout; scripts with 20..60 failing substitutions before a good one) are executed and compared with prefix+output-minus-trailing-newlines+suffix; stderr pass-through, exactly-once, the inner command's own argv and shell state are checked on every run.",
             "unquoted results compared modulo blank/newline runs",
             "DESIGN.md 3 C11"),
     "C13": ("exploration",
             "runtime monitoring: observer records argv, identity of its fds 0/1/2 and its parent; directory listing before/after; any further helper record is an extra command",
-            "The finite product value-class (incl. multi-line values) x delivery ($V, ${V}, assigned, $(), backquotes, * match of a file, * in a directory position matching a directory with that name) x quoting x position (first/middle/last argument, command word, value of a leading assignment word, glued to name= as an argument) x neighbouring-word tag, and again next to a genuine < f / <<< w / > f on the same command, is enumerated completely (14.6k executions); thorough adds 20k random operator mixes.",
+            "The finite product value-class (incl. multi-line values and text that reads as a command substitution) x delivery ($V, ${V}, assigned, $(), backquotes, * match of a file, * in a directory position matching a directory with that name, $V inside a substitution in six shapes) x quoting x position (first/middle/last argument, command word, value of a leading assignment word, glued to name= as an argument) x neighbouring-word tag, and again next to a genuine < f / <<< w / > f on the same command, is enumerated completely (14.6k executions); thorough adds 20k random operator mixes.",
             "unquoted results compared modulo blank runs",
             "DESIGN.md 3 C13"),
     "C09": ("exploration",
             "runtime monitoring: a probe observer after every operation records the expansion values (argv), the environment it received and its cwd; $? probes after cd; relative-redirection files located afterwards; oracle = reference model of shell/exported variables, cwd, previous dir",
-            "Random histories of <=30 assignment/prefix/export/unset/read/cd/redirection operations over a generated tree with symlinks, non-directories and missing entries; every intermediate state is observed, not only the final one.",
+            "Random histories of <=30 assignment/prefix/export/unset/read/cd/redirection operations over a generated tree with symlinks, non-directories and missing entries; every intermediate state is observed, not only the final one; values are written between quotes, with escaped blanks, or copied from another name ($N, ${N}, "$N").",
             "model in lib/c09.py; symlinks resolved with realpath as cd canonicalises",
             "DESIGN.md 3 C09"),
     "C19": ("exploration",
@@ -70,17 +70,17 @@ CHECKS = {
             "DESIGN.md 3 C14"),
     "C15": ("exploration",
             "runtime monitoring: probe observers for \"$0\" \"$1\" \"${2}\" \"$@\" and $? placed in the script, in function bodies and in sourced files; marker observers; process exit status; oracle = reference model of the documented semantics run on the same structure",
-            "Generated scripts with arguments (incl. blanks and specials), functions in both header spellings, source chains to depth 3, exit / set -e / failing commands at random positions, if / else-if / else chains, for loops (also over positional parameters) and while loops whose condition lines carry the positional parameters, in the script, in function bodies and in sourced files; the whole ordered event list and the exit status are compared.",
+            "Generated scripts with arguments (incl. blanks and specials), functions in both header spellings, source chains to depth 3, exit / set -e / failing commands at random positions, if / else-if / else chains, for loops (also over positional parameters) and while loops whose condition lines carry the positional parameters, in the script, in function bodies and in sourced files; 6% of the scripts run on a pseudo-terminal behind a background command; the whole ordered event list and the exit status are compared.",
             "model in lib/c15.py; the state right after an if none of whose branches ran is not judged",
             "DESIGN.md 3 C15"),
     "C18": ("exploration",
             "runtime monitoring: the sqlite file is read by an independent client (python sqlite3) after every mutating step and listings come from fresh cicada processes; oracle = row model (one row per submission, verbatim, submission order, exact deletes, read-only searches); concurrent adders (conservation) and overlapping pty sessions",
-            "Random multi-process histories from directories and with texts/patterns over the quote/percent/underscore/backslash/semicolon/--/)/multi-byte alphabet incl. injection-shaped strings; interactive sessions for the leading-blank/repeat rules and for submission order under overlap.",
+            "Random multi-process histories from directories and with texts/patterns over the quote/percent/underscore/backslash/semicolon/--/)/multi-byte alphabet incl. injection-shaped strings; interactive sessions for the leading-blank/repeat rules, for submission order under overlap and for restarts (with and without HISTORY_DELETE_DUPS=0).",
             "LIKE exactness only demanded for wildcard-free ASCII patterns; option-looking patterns not judged",
             "DESIGN.md 3 C18"),
     "C17": ("exploration",
             "runtime monitoring: alias values start with observer programs (argv reached through an alias is recorded); listings captured through the builtin's redirection and fed to a fresh shell; oracle = alias-table model over a history of operations",
-            "Random histories of define/redefine/unalias/list/show/use with names over [A-Za-z0-9_.-]+ (incl. pairs differing only in letter case or in the separator character) and values with options, quoted blanks, pipes, other alias names and self reference; uses at line start, after | ; &&, in every stage of a pipeline, and as non-first word.",
+            "Random histories of define/redefine/unalias/list/show/use with names over [A-Za-z0-9_.-]+ (incl. pairs differing only in letter case or in the separator character) and values with options, quoted blanks, pipes, other alias names and self reference; uses at line start, after | ; &&, in every stage of a pipeline, right behind their own definition on one line, as non-first word (also behind a quoted pipe word) and as the first word of a for list; values may carry a redirection; listings go to a file, a pipe or a substitution.",
             "expected argv = shell-split alias value + remaining words",
             "DESIGN.md 3 C17"),
     "C16": ("exploration",
@@ -100,7 +100,7 @@ CHECKS = {
             "DESIGN.md 3 C07"),
     "C05": ("exploration",
             "runtime monitoring in three layers: exhaustive in-process sweep of all pure stages under catch_unwind with a step budget on the rewrite loops (hook), generated/mutated lines through the real binary (two builds) under a watchdog with /proc hang diagnosis and a sentinel command, random key sequences through a pty followed by a sentinel command",
-            "All strings of length<=5 (thorough 6) over a 14-symbol special alphabet and all sequences of <=4 (5) fragments of three further alphabets (operators/arithmetic, multi-byte letters, backslash x every kind of blank) go through every pure stage under catch_unwind, a step budget and a per-input SIGALRM watchdog; 5k (60k) generated lines and 96 (1000) pty sessions go through the real shell.",
+            "All strings of length<=5 (thorough 6) over a 14-symbol special alphabet and all sequences of <=4 (5) fragments of three further alphabets (operators/arithmetic, multi-byte letters, backslash x every kind of blank) go through every pure stage under catch_unwind, a step budget and a per-input SIGALRM watchdog; 5k (60k) generated lines, directed lines (ranges far too large to build, functions that call themselves, values that are one quote character) and 96 (1000) pty sessions go through the real shell, plus Ctrl-C typed while a builtin prints more than the terminal takes; every shell runs under a 6 GB address-space limit so that a runaway allocation ends as a crash of that shell.",
             "step budget 2000/3000 iterations = non-termination; hang is a violation only with a /proc diagnosis",
             "DESIGN.md 3 C05"),
     "C20": ("exploration",
@@ -134,6 +134,8 @@ def main():
         "engines": [
             {"name": "observers", "path": "helpers/vp.c", "serves_properties": sorted(CHECKS),
              "kind_free_text": "static multi-call C helper programs that record argv/fds/env/cwd/stdin/bytes to an O_APPEND JSONL event log"},
+            {"name": "in-process harness", "path": "harness/", "serves_properties": ["C01", "C05", "C06", "C20"],
+             "kind_free_text": "Rust crate built against /repo with --cfg cicada_verif: planned-command explorer (exec interceptor), exhaustive sweeps of the pure stages under catch_unwind + step budget, virtual-kernel scheduler for the job table (waitpid hook), completion splice emulation"},
             {"name": "drivers+checkers", "path": "lib/", "serves_properties": sorted(CHECKS),
              "kind_free_text": "python stdlib drivers (batch, script, pty), generators, reference models and offline checkers over the event log"},
         ],
